@@ -159,6 +159,41 @@ def groups_of(rdesc):
     return [[j for j, v in enumerate(rdesc) if v == g] for g in vals]
 
 
+def group_weights(rdesc):
+    """weight of every RDM in both bounds of the grouped loop: 1 / (#groups * size of its group)"""
+    groups = groups_of(rdesc)
+    w = [0.0] * len(rdesc)
+    for g in groups:
+        for j in g:
+            w[j] = 1.0 / (len(groups) * len(g))
+    return w
+
+
+def unit(method, x):
+    """the RDM as the measure sees it: direction (cosine) / centred direction (corr); zero if degenerate"""
+    c = center(x) if method == 'corr' else list(x)
+    s = math.sqrt(dot(c, c))
+    return [a / s for a in c] if s > 0 else [0.0] * len(c)
+
+
+def wpool(method, rows, rdesc):
+    """the group-weighted pool sum_j w_j unit(r_j): maximiser of the grouped score (cosine, corr)"""
+    w = group_weights(rdesc)
+    u = [unit(method, r) for r in rows]
+    return [math.fsum(w[j] * u[j][k] for j in range(len(rows))) for k in range(len(rows[0]))]
+
+
+def wsup(method, rows, rdesc):
+    """the highest grouped score any single RDM can reach: |sum_j w_j unit(r_j)|"""
+    p = wpool(method, rows, rdesc)
+    return math.sqrt(dot(p, p))
+
+
+def grouped_score(method, cand, rows, rdesc, n=None, keep=None):
+    groups = groups_of(rdesc)
+    return mean([mean([sim(method, cand, rows[j], n, keep) for j in g]) for g in groups])
+
+
 def boot_expected(method, rows, rdesc, n):
     """(lower, upper) by the definition: leave one group out / pool of everything"""
     keep = mask_of(rows[0])
